@@ -113,6 +113,7 @@ Section Generic.
   Variable exts : list (string * codec).
   Variable edn : bool.
   Variable W : wiring.
+  Variable E : enum_env.
   Hypothesis Henum : assoc "Enum" enc = Some EName.
   Hypothesis Hpath : assoc "PathLike" enc = Some EFspath.
   Hypothesis Hlist : assoc "list" enc = Some ESeq.
@@ -123,18 +124,18 @@ Section Generic.
   Let enc' := encode_cfg enc.
   Hypothesis HW : W = W_EXPECTED.
 
-  Let fin := finish_default str2bool emc edn W.
-  Let vvc := value_via_config str2bool emc edn W.
+  Let fin := finish_default str2bool emc edn W E.
+  Let vvc := value_via_config str2bool emc edn W E.
 
   (* what a value is read back as: encode, then load *)
   Definition reload (v : value) : value := decode (enc' v).
 
   (* ---------- the interpreted tables, under the expected wiring ---------- *)
   Lemma fin_ref t d :
-    fin t d = bind (argparse_default str2bool emc (arg_options t) (as_argparse_default edn t d)) (post_ref t).
+    fin t d = bind (argparse_default str2bool emc E t (arg_options t) (as_argparse_default edn E t d)) (post_ref t).
   Proof.
     unfold fin, finish_default. rewrite HW.
-    destruct (argparse_default str2bool emc (arg_options t) (as_argparse_default edn t d)); [|reflexivity].
+    destruct (argparse_default str2bool emc E t (arg_options t) (as_argparse_default edn E t d)); [|reflexivity].
     cbn [bind]. apply post_expected.
   Qed.
 
@@ -211,14 +212,14 @@ Section Generic.
 
   (* ---------- from the default to the constructor argument ---------- *)
   Lemma as_default_not_enum t d :
-    match t with TEnum _ => False | _ => True end -> as_argparse_default edn t d = d.
+    match t with TEnum _ => False | _ => True end -> as_argparse_default edn E t d = d.
   Proof. unfold as_argparse_default. destruct edn; [|reflexivity]. destruct t; intros H; try reflexivity. destruct H. Qed.
 
   (* a live Python object that is an instance of the annotation passes through unchanged *)
   Lemma finish_live t d :
-    cfg_type t = true -> has_type d t = true -> d <> VNone -> fin t d = Ok d.
+    cfg_type t = true -> has_type d t = true -> d <> VNone -> defn_enum_safe E t (Some d) = true -> fin t d = Ok d.
   Proof.
-    intros Hc Ht Hn. rewrite fin_ref.
+    intros Hc Ht Hn Hsafe. rewrite fin_ref.
     destruct t as [| | | | |ms|cs|u|ts|u|u]; try discriminate Hc.
     - destruct d; try discriminate Ht. rewrite as_default_not_enum by exact I. reflexivity.
     - destruct d; try discriminate Ht. rewrite as_default_not_enum by exact I. reflexivity.
@@ -226,15 +227,19 @@ Section Generic.
     - destruct d; try discriminate Ht. rewrite as_default_not_enum by exact I. reflexivity.
     - destruct d; try discriminate Ht. rewrite as_default_not_enum by exact I. reflexivity.
     - destruct d; try discriminate Ht. cbn [has_type] in Ht.
+      cbn [defn_enum_safe] in Hsafe. apply negb_true_iff in Hsafe.
       unfold as_argparse_default. destruct edn.
-      + cbn. rewrite Ht. reflexivity.
-      + reflexivity.
+      + destruct (is_falsy_member E ms m).
+        * unfold argparse_default. rewrite Hsafe. reflexivity.
+        * cbn. rewrite Ht. reflexivity.
+      + unfold argparse_default. rewrite Hsafe. reflexivity.
     - destruct d; try discriminate Ht. rewrite as_default_not_enum by exact I. reflexivity.
     - destruct d; try discriminate Ht. rewrite as_default_not_enum by exact I. reflexivity.
     - destruct d; try discriminate Ht. rewrite as_default_not_enum by exact I. reflexivity.
     - rewrite as_default_not_enum by exact I.
       destruct d; try (exfalso; apply Hn; reflexivity);
-        destruct u; try discriminate Hc; try discriminate Ht; reflexivity.
+        destruct u; try discriminate Hc; try discriminate Ht; try reflexivity.
+      cbn [defn_enum_safe] in Hsafe. apply negb_true_iff in Hsafe. unfold argparse_default. rewrite Hsafe. reflexivity.
   Qed.
 
   (* ---------- values read from the file ---------- *)
@@ -306,10 +311,10 @@ Section Generic.
     end.
 
   Theorem leaf_characterised t defn v :
-    cfg_type t = true -> defn_typed t defn = true -> has_type v t = true ->
+    cfg_type t = true -> defn_typed t defn = true -> has_type v t = true -> defn_enum_safe E t defn = true ->
     vvc t defn (enc' v) = Ok (comes_back defn v).
   Proof.
-    intros Hc Hd Ht.
+    intros Hc Hd Ht Hsafe.
     destruct (match v with VNone => true | _ => false end) eqn:Enull.
     - (* None was saved: only an Optional field can hold it; the definition default takes over *)
       destruct v; try discriminate Enull. rewrite vvc_null.
@@ -318,7 +323,7 @@ Section Generic.
       + destruct (match d with VNone => true | _ => false end) eqn:Ed.
         * destruct d; try discriminate Ed. apply finish_opt_none.
         * assert (Hlive : fin (TOpt u) d = Ok d).
-          { apply finish_live; [exact Hc|exact Hd|]. intro H; subst d; discriminate Ed. }
+          { apply finish_live; [exact Hc|exact Hd| |exact Hsafe]. intro H; subst d; discriminate Ed. }
           destruct d; try discriminate Ed; exact Hlive.
       + apply finish_opt_none.
     - assert (Hn : v <> VNone) by (intro H; subst v; discriminate Enull).
@@ -370,20 +375,30 @@ Section Generic.
     items_plain t = true -> not_null_over_default defn v = true ->
     vvc t defn (enc' v) = Ok v.
   Proof.
-    intros Hc Hd Ht Hp Hn. rewrite (leaf_characterised t defn v Hc Hd Ht).
-    rewrite (comes_back_id t defn v Hc Ht Hp Hn). reflexivity.
+    intros Hc Hd Ht Hp Hn.
+    destruct (match v with VNone => true | _ => false end) eqn:Enull.
+    - (* None saved: the definition default is None or absent, so no member default is involved *)
+      assert (Hsafe : defn_enum_safe E t defn = true).
+      { destruct v; try discriminate Enull. destruct defn as [d|]; [destruct d; try discriminate Hn|]; reflexivity. }
+      rewrite (leaf_characterised t defn v Hc Hd Ht Hsafe).
+      rewrite (comes_back_id t defn v Hc Ht Hp Hn). reflexivity.
+    - (* a value: the definition default plays no part *)
+      assert (Hnn : v <> VNone) by (intro H; subst v; discriminate Enull).
+      rewrite (vvc_nonnull t defn v Hnn), <- (vvc_nonnull t None v Hnn).
+      rewrite (leaf_characterised t None v Hc eq_refl Ht eq_refl).
+      rewrite (comes_back_id t None v Hc Ht Hp); [reflexivity|]. destruct v; reflexivity.
   Qed.
 
   (* ---------- trees of dataclasses: the loop composes leaf by leaf ---------- *)
   Let tod := to_dict enc.
-  Let ld := load_cfg str2bool emc edn W.
+  Let ld := load_cfg str2bool emc edn W E.
 
   (* every leaf of the instance comes back unchanged through its own field; names are distinct in every class *)
   Fixpoint loops (s : schema) (x : inst) {struct s} : Prop :=
     match s, x with
     | SLeaf t defn, ILeaf v => vvc t defn (enc' v) = Ok v
     | SNode fs, INode xs => NoDup (map fst fs) /\ all2P loops fs xs
-    | SOpt s', ILeaf VNone => absent_err str2bool emc edn W s' = None      (* an Optional member that is None *)
+    | SOpt s', ILeaf VNone => absent_err str2bool emc edn W E s' = None      (* an Optional member that is None *)
     | SOpt s', INode _ => loops s' x    (* ... that holds an instance *)
     | _, _ => False
     end.
@@ -433,37 +448,39 @@ Section Generic.
   Qed.
 
   (* with the None guard in postprocess' tuple branch, the fields of a None member are processed without error *)
-  Lemma as_default_none t : as_argparse_default edn t VNone = VNone.
+  Lemma as_default_none t : as_argparse_default edn E t VNone = VNone.
   Proof. unfold as_argparse_default. destruct edn; [destruct t|]; reflexivity. Qed.
 
-  Lemma member_loads_ok : forall s, member_loads s = true -> absent_err str2bool emc edn W s = None.
+  Lemma member_loads_ok : forall s,
+    member_loads s = true -> enum_defaults_safe E s = true -> absent_err str2bool emc edn W E s = None.
   Proof.
-    apply (schema_nested_ind (fun s => member_loads s = true -> absent_err str2bool emc edn W s = None)).
-    - intros t defn H. cbn [absent_err].
+    apply (schema_nested_ind (fun s => member_loads s = true -> enum_defaults_safe E s = true -> absent_err str2bool emc edn W E s = None)).
+    - intros t defn H Hsafe. cbn [absent_err enum_defaults_safe] in *.
       assert (Hnone : fin t VNone = Ok VNone).
       { destruct t; try (rewrite fin_ref; rewrite as_default_none; reflexivity).
         apply finish_opt_none. }
-      change (finish_default str2bool emc edn W) with fin. rewrite field_default_ref.
+      change (finish_default str2bool emc edn W E) with fin. rewrite field_default_ref.
       destruct defn as [d|]; cbn [member_loads] in *.
       + destruct (match d with VNone => true | _ => false end) eqn:Ed.
         * destruct d; try discriminate Ed. rewrite Hnone. reflexivity.
-        * assert (Hd : d <> VNone) by (intro E; subst d; discriminate Ed).
+        * assert (Hd : d <> VNone) by (intro E'; subst d; discriminate Ed).
           assert (H' : cfg_type t && has_type d t = true) by (destruct d; try exact H; discriminate Ed).
           apply andb_true_iff in H'. destruct H' as [Hc Ht].
-          pose proof (finish_live t d Hc Ht Hd) as Hl.
+          pose proof (finish_live t d Hc Ht Hd Hsafe) as Hl.
           destruct d; try (rewrite Hl; reflexivity); discriminate Ed.
       + rewrite Hnone. reflexivity.
-    - intros fs IH H. cbn [member_loads absent_err] in *.
+    - intros fs IH H Hsafe. cbn [member_loads enum_defaults_safe absent_err] in *.
       induction IH as [|[n s'] r Hhd _ IHr]; [reflexivity|].
       cbn [forallb snd first_err_fields] in *. apply andb_true_iff in H. destruct H as [H1 H2].
-      rewrite (Hhd H1). apply IHr. exact H2.
-    - intros s IH H. cbn [member_loads absent_err] in *. apply IH. exact H.
+      apply andb_true_iff in Hsafe. destruct Hsafe as [S1 S2].
+      rewrite (Hhd H1 S1). apply IHr; assumption.
+    - intros s IH H Hsafe. cbn [member_loads enum_defaults_safe absent_err] in *. apply IH; assumption.
   Qed.
 
   (* the property's quantifier and the side conditions give the leaf-wise premise *)
   Lemma quantifier_all2 : forall l1 l2,
-    all2b in_quantifier l1 l2 = true -> all2b side_conditions l1 l2 = true ->
-    Forall (fun kv => forall x, in_quantifier (snd kv) x = true -> side_conditions (snd kv) x = true -> loops (snd kv) x) l1 ->
+    all2b in_quantifier l1 l2 = true -> all2b (side_conditions E) l1 l2 = true ->
+    Forall (fun kv => forall x, in_quantifier (snd kv) x = true -> side_conditions E (snd kv) x = true -> loops (snd kv) x) l1 ->
     all2P loops l1 l2.
   Proof.
     induction l1 as [|[n s'] r1 IH]; intros [|[m x'] r2] Hq Hs HF; try discriminate Hq; [exact I|].
@@ -474,9 +491,9 @@ Section Generic.
     - apply IH; assumption.
   Qed.
 
-  Lemma quantifier_loops : forall s x, in_quantifier s x = true -> side_conditions s x = true -> loops s x.
+  Lemma quantifier_loops : forall s x, in_quantifier s x = true -> side_conditions E s x = true -> loops s x.
   Proof.
-    apply (schema_nested_ind (fun s => forall x, in_quantifier s x = true -> side_conditions s x = true -> loops s x)).
+    apply (schema_nested_ind (fun s => forall x, in_quantifier s x = true -> side_conditions E s x = true -> loops s x)).
     - intros t d x Hq Hs. destruct x as [v|xs|w]; try discriminate Hq.
       cbn [in_quantifier] in Hq. cbn [side_conditions] in Hs. cbn [loops].
       apply andb_true_iff in Hq. destruct Hq as [Hq Ht]. apply andb_true_iff in Hq. destruct Hq as [Hc Hd].
@@ -487,7 +504,7 @@ Section Generic.
       + apply str_nodupb_NoDup. exact Hnd.
       + apply quantifier_all2; assumption.
     - intros s IH x Hq Hs. destruct x as [v|xs|w]; try discriminate Hq.
-      + destruct v; try discriminate Hq. cbn [in_quantifier loops] in *. destruct s; try discriminate Hq. apply member_loads_ok. exact Hq.
+      + destruct v; try discriminate Hq. cbn [in_quantifier side_conditions loops] in *. destruct s; try discriminate Hq. apply member_loads_ok; assumption.
       + cbn [in_quantifier side_conditions loops] in *. destruct s; try discriminate Hq. apply IH; assumption.
   Qed.
 
@@ -509,8 +526,8 @@ Section Generic.
   Qed.
 
   Theorem tree_loop sfx s x :
-    str_in sfx four_suffixes = true -> in_quantifier s x = true -> side_conditions s x = true ->
-    config_loop str2bool emc enc exts edn W sfx s x = Ok x.
+    str_in sfx four_suffixes = true -> in_quantifier s x = true -> side_conditions E s x = true ->
+    config_loop str2bool emc enc exts edn W E sfx s x = Ok x.
   Proof.
     intros Hs Hq Hc. unfold config_loop. fold tod. rewrite (roundtrip_plain sfx (tod x) Hs (to_dict_plain x)).
     cbn [bind]. apply tree_compose. apply quantifier_loops; assumption.
@@ -527,7 +544,7 @@ Section Generic.
 
   Theorem routes_same via a dest sfx s x :
     str_in sfx four_suffixes = true ->
-    config_run str2bool emc enc exts edn W via a dest sfx s x = config_loop str2bool emc enc exts edn W sfx s x.
+    config_run str2bool emc enc exts edn W E via a dest sfx s x = config_loop str2bool emc enc exts edn W E sfx s x.
   Proof.
     intros Hs. unfold config_run, config_loop. fold tod. rewrite applies_all. cbn [negb].
     destruct a.
@@ -573,10 +590,10 @@ Section Generic.
 
   (* defect #8 in general: None saved over a definition default d gives d back *)
   Theorem null_falls_back u d :
-    cfg_type (TOpt u) = true -> has_type d (TOpt u) = true -> d <> VNone ->
+    cfg_type (TOpt u) = true -> has_type d (TOpt u) = true -> d <> VNone -> defn_enum_safe E (TOpt u) (Some d) = true ->
     vvc (TOpt u) (Some d) (enc' VNone) = Ok d.
   Proof.
-    intros Hc Ht Hn. rewrite vvc_null. pose proof (finish_live (TOpt u) d Hc Ht Hn) as H.
+    intros Hc Ht Hn Hsafe. rewrite vvc_null. pose proof (finish_live (TOpt u) d Hc Ht Hn Hsafe) as H.
     destruct d; exact H.
   Qed.
 
@@ -614,8 +631,8 @@ Section Generic.
   Qed.
 
   Theorem tree_meets_spec sfx s x :
-    str_in sfx four_suffixes = true -> in_quantifier s x = true -> side_conditions s x = true ->
-    spec_loop s x (config_loop str2bool emc enc exts edn W sfx s x) = true.
+    str_in sfx four_suffixes = true -> in_quantifier s x = true -> side_conditions E s x = true ->
+    spec_loop s x (config_loop str2bool emc enc exts edn W E sfx s x) = true.
   Proof.
     intros Hs Hq Hc. rewrite (tree_loop sfx s x Hs Hq Hc). unfold spec_loop.
     rewrite inst_eqb_refl, (quantifier_typed s x Hq). reflexivity.
@@ -644,12 +661,13 @@ Qed.
 
 Definition reload_gen := reload encode_table_gen.
 Definition comes_back_gen := comes_back encode_table_gen.
+Definition NOENV : enum_env := mkenv [] [].
 Definition loops_gen := loops str2bool_gen enum_miss_cls_gen encode_table_gen enum_default_as_name_gen wiring_gen.
 
 (* the property, stated in full for one field *)
 Definition loop_statement : Prop :=
   forall t defn v, cfg_type t = true -> defn_typed t defn = true -> has_type v t = true ->
-    value_via_config_gen t defn (encode_cfg_gen v) = Ok v.
+    value_via_config_gen NOENV t defn (encode_cfg_gen v) = Ok v.
 
 Theorem loop_refuted_null : ~ loop_statement.
 Proof.
@@ -659,7 +677,7 @@ Qed.
 
 Theorem loop_refuted_items : ~ (forall t defn v,
   cfg_type t = true -> defn_typed t defn = true -> has_type v t = true -> not_null_over_default defn v = true ->
-  value_via_config_gen t defn (encode_cfg_gen v) = Ok v).
+  value_via_config_gen NOENV t defn (encode_cfg_gen v) = Ok v).
 Proof.
   intros H. specialize (H (TList TPath) None (VList [VPath "a"]) eq_refl eq_refl eq_refl eq_refl).
   vm_compute in H. discriminate H.
@@ -667,91 +685,111 @@ Qed.
 
 (* the concrete witnesses, with what comes back *)
 Theorem witness_null :
-  value_via_config_gen (TOpt TInt) (Some (VInt 5)) (encode_cfg_gen VNone) = Ok (VInt 5).
+  value_via_config_gen NOENV (TOpt TInt) (Some (VInt 5)) (encode_cfg_gen VNone) = Ok (VInt 5).
 Proof. vm_compute. reflexivity. Qed.
 Theorem witness_list_path :
-  value_via_config_gen (TList TPath) None (encode_cfg_gen (VList [VPath "a"; VPath "b/c"])) = Ok (VList [VStr "a"; VStr "b/c"]).
+  value_via_config_gen NOENV (TList TPath) None (encode_cfg_gen (VList [VPath "a"; VPath "b/c"])) = Ok (VList [VStr "a"; VStr "b/c"]).
 Proof. vm_compute. reflexivity. Qed.
 Theorem witness_tuple_enum :
-  value_via_config_gen (TTupFix [TEnum ["RED"; "GREEN"]; TInt]) None (encode_cfg_gen (VTup [VEnum "RED"; VInt 1]))
+  value_via_config_gen NOENV (TTupFix [TEnum ["RED"; "GREEN"]; TInt]) None (encode_cfg_gen (VTup [VEnum "RED"; VInt 1]))
   = Ok (VTup [VStr "RED"; VInt 1]).
 Proof. vm_compute. reflexivity. Qed.
 
-Theorem leaf_characterised_gen : forall t defn v,
-  cfg_type t = true -> defn_typed t defn = true -> has_type v t = true ->
-  value_via_config_gen t defn (encode_cfg_gen v) = Ok (comes_back_gen defn v).
-Proof. exact (leaf_characterised str2bool_gen enum_miss_cls_gen encode_table_gen enum_default_as_name_gen wiring_gen gen_enum gen_path gen_list gen_tuple gen_wiring). Qed.
+Theorem leaf_characterised_gen : forall E t defn v,
+  cfg_type t = true -> defn_typed t defn = true -> has_type v t = true -> defn_enum_safe E t defn = true ->
+  value_via_config_gen E t defn (encode_cfg_gen v) = Ok (comes_back_gen defn v).
+Proof. intros E. exact (leaf_characterised str2bool_gen enum_miss_cls_gen encode_table_gen enum_default_as_name_gen wiring_gen E gen_enum gen_path gen_list gen_tuple gen_wiring). Qed.
 
-Theorem leaf_partial_gen : forall t defn v,
+Theorem leaf_partial_gen : forall E t defn v,
   cfg_type t = true -> defn_typed t defn = true -> has_type v t = true ->
   items_plain t = true -> not_null_over_default defn v = true ->
-  value_via_config_gen t defn (encode_cfg_gen v) = Ok v.
-Proof. exact (leaf_partial str2bool_gen enum_miss_cls_gen encode_table_gen enum_default_as_name_gen wiring_gen gen_enum gen_path gen_list gen_tuple gen_wiring). Qed.
+  value_via_config_gen E t defn (encode_cfg_gen v) = Ok v.
+Proof. intros E. exact (leaf_partial str2bool_gen enum_miss_cls_gen encode_table_gen enum_default_as_name_gen wiring_gen E gen_enum gen_path gen_list gen_tuple gen_wiring). Qed.
 
-Theorem scalar_loop_gen : forall t defn v,
-  is_item t = true -> has_type v t = true -> value_via_config_gen t defn (encode_cfg_gen v) = Ok v.
-Proof. exact (scalar_loop str2bool_gen enum_miss_cls_gen encode_table_gen enum_default_as_name_gen wiring_gen gen_enum gen_path gen_list gen_tuple gen_wiring). Qed.
+Theorem scalar_loop_gen : forall E t defn v,
+  is_item t = true -> has_type v t = true -> value_via_config_gen E t defn (encode_cfg_gen v) = Ok v.
+Proof. intros E. exact (scalar_loop str2bool_gen enum_miss_cls_gen encode_table_gen enum_default_as_name_gen wiring_gen E gen_enum gen_path gen_list gen_tuple gen_wiring). Qed.
 
-Theorem tuple_loop_gen : forall ts defn vs,
+Theorem tuple_loop_gen : forall E ts defn vs,
   forallb plain_item ts = true -> has_type (VTup vs) (TTupFix ts) = true ->
-  value_via_config_gen (TTupFix ts) defn (encode_cfg_gen (VTup vs)) = Ok (VTup vs).
-Proof. exact (tuple_loop str2bool_gen enum_miss_cls_gen encode_table_gen enum_default_as_name_gen wiring_gen gen_enum gen_path gen_list gen_tuple gen_wiring). Qed.
+  value_via_config_gen E (TTupFix ts) defn (encode_cfg_gen (VTup vs)) = Ok (VTup vs).
+Proof. intros E. exact (tuple_loop str2bool_gen enum_miss_cls_gen encode_table_gen enum_default_as_name_gen wiring_gen E gen_enum gen_path gen_list gen_tuple gen_wiring). Qed.
 
-Theorem optional_none_gen : forall u defn,
+Theorem optional_none_gen : forall E u defn,
   match defn with Some VNone | None => True | _ => False end ->
-  value_via_config_gen (TOpt u) defn (encode_cfg_gen VNone) = Ok VNone.
-Proof. exact (optional_none str2bool_gen enum_miss_cls_gen encode_table_gen enum_default_as_name_gen wiring_gen gen_wiring). Qed.
+  value_via_config_gen E (TOpt u) defn (encode_cfg_gen VNone) = Ok VNone.
+Proof. intros E. exact (optional_none str2bool_gen enum_miss_cls_gen encode_table_gen enum_default_as_name_gen wiring_gen E gen_wiring). Qed.
 
-Theorem optional_some_gen : forall u defn v,
-  is_item u = true -> has_type v u = true -> value_via_config_gen (TOpt u) defn (encode_cfg_gen v) = Ok v.
-Proof. exact (optional_some str2bool_gen enum_miss_cls_gen encode_table_gen enum_default_as_name_gen wiring_gen gen_enum gen_path gen_list gen_tuple gen_wiring). Qed.
+Theorem optional_some_gen : forall E u defn v,
+  is_item u = true -> has_type v u = true -> value_via_config_gen E (TOpt u) defn (encode_cfg_gen v) = Ok v.
+Proof. intros E. exact (optional_some str2bool_gen enum_miss_cls_gen encode_table_gen enum_default_as_name_gen wiring_gen E gen_enum gen_path gen_list gen_tuple gen_wiring). Qed.
 
-Theorem null_falls_back_gen : forall u d,
-  cfg_type (TOpt u) = true -> has_type d (TOpt u) = true -> d <> VNone ->
-  value_via_config_gen (TOpt u) (Some d) (encode_cfg_gen VNone) = Ok d.
-Proof. exact (null_falls_back str2bool_gen enum_miss_cls_gen encode_table_gen enum_default_as_name_gen wiring_gen gen_wiring). Qed.
+Theorem null_falls_back_gen : forall E u d,
+  cfg_type (TOpt u) = true -> has_type d (TOpt u) = true -> d <> VNone -> defn_enum_safe E (TOpt u) (Some d) = true ->
+  value_via_config_gen E (TOpt u) (Some d) (encode_cfg_gen VNone) = Ok d.
+Proof. intros E. exact (null_falls_back str2bool_gen enum_miss_cls_gen encode_table_gen enum_default_as_name_gen wiring_gen E gen_wiring). Qed.
 
-Theorem list_comes_back_gen : forall u defn vs,
-  value_via_config_gen (TList u) defn (encode_cfg_gen (VList vs)) = Ok (VList (map reload_gen vs)).
-Proof. exact (list_comes_back str2bool_gen enum_miss_cls_gen encode_table_gen enum_default_as_name_gen wiring_gen gen_enum gen_path gen_list gen_tuple gen_wiring). Qed.
-Theorem tupfix_comes_back_gen : forall ts defn vs,
-  value_via_config_gen (TTupFix ts) defn (encode_cfg_gen (VTup vs)) = Ok (VTup (map reload_gen vs)).
-Proof. exact (tupfix_comes_back str2bool_gen enum_miss_cls_gen encode_table_gen enum_default_as_name_gen wiring_gen gen_enum gen_path gen_list gen_tuple gen_wiring). Qed.
+Theorem list_comes_back_gen : forall E u defn vs,
+  value_via_config_gen E (TList u) defn (encode_cfg_gen (VList vs)) = Ok (VList (map reload_gen vs)).
+Proof. intros E. exact (list_comes_back str2bool_gen enum_miss_cls_gen encode_table_gen enum_default_as_name_gen wiring_gen E gen_enum gen_path gen_list gen_tuple gen_wiring). Qed.
+Theorem tupfix_comes_back_gen : forall E ts defn vs,
+  value_via_config_gen E (TTupFix ts) defn (encode_cfg_gen (VTup vs)) = Ok (VTup (map reload_gen vs)).
+Proof. intros E. exact (tupfix_comes_back str2bool_gen enum_miss_cls_gen encode_table_gen enum_default_as_name_gen wiring_gen E gen_enum gen_path gen_list gen_tuple gen_wiring). Qed.
 Theorem reload_enum_gen : forall m, reload_gen (VEnum m) = VStr m.
 Proof. exact (reload_enum encode_table_gen gen_enum). Qed.
 Theorem reload_path_gen : forall s, reload_gen (VPath s) = VStr s.
 Proof. exact (reload_path encode_table_gen gen_path). Qed.
 
-Theorem tree_compose_gen : forall s x, loops_gen s x -> load_cfg_gen s (Some (to_dict_gen x)) = Ok x.
-Proof. exact (tree_compose str2bool_gen enum_miss_cls_gen encode_table_gen enum_default_as_name_gen wiring_gen gen_wiring). Qed.
+Theorem tree_compose_gen : forall E s x, loops_gen E s x -> load_cfg_gen E s (Some (to_dict_gen x)) = Ok x.
+Proof. intros E. exact (tree_compose str2bool_gen enum_miss_cls_gen encode_table_gen enum_default_as_name_gen wiring_gen E gen_wiring). Qed.
 
-Theorem tree_loop_gen : forall sfx s x,
-  str_in sfx four_suffixes = true -> in_quantifier s x = true -> side_conditions s x = true ->
-  config_loop_gen sfx s x = Ok x.
-Proof. exact (tree_loop str2bool_gen enum_miss_cls_gen encode_table_gen extensions_gen enum_default_as_name_gen wiring_gen gen_enum gen_path gen_list gen_tuple gen_exts gen_wiring). Qed.
+Theorem tree_loop_gen : forall E sfx s x,
+  str_in sfx four_suffixes = true -> in_quantifier s x = true -> side_conditions E s x = true ->
+  config_loop_gen E sfx s x = Ok x.
+Proof. intros E. exact (tree_loop str2bool_gen enum_miss_cls_gen encode_table_gen extensions_gen enum_default_as_name_gen wiring_gen E gen_enum gen_path gen_list gen_tuple gen_exts gen_wiring). Qed.
 
-Theorem tree_meets_spec_gen : forall sfx s x,
-  str_in sfx four_suffixes = true -> in_quantifier s x = true -> side_conditions s x = true ->
-  spec_loop s x (config_loop_gen sfx s x) = true.
-Proof. exact (tree_meets_spec str2bool_gen enum_miss_cls_gen encode_table_gen extensions_gen enum_default_as_name_gen wiring_gen gen_enum gen_path gen_list gen_tuple gen_exts gen_wiring). Qed.
+Theorem tree_meets_spec_gen : forall E sfx s x,
+  str_in sfx four_suffixes = true -> in_quantifier s x = true -> side_conditions E s x = true ->
+  spec_loop s x (config_loop_gen E sfx s x) = true.
+Proof. intros E. exact (tree_meets_spec str2bool_gen enum_miss_cls_gen encode_table_gen extensions_gen enum_default_as_name_gen wiring_gen E gen_enum gen_path gen_list gen_tuple gen_exts gen_wiring). Qed.
 
-Theorem routes_same_gen : forall via a dest sfx s x,
-  str_in sfx four_suffixes = true -> config_run_gen via a dest sfx s x = config_loop_gen sfx s x.
-Proof. exact (routes_same str2bool_gen enum_miss_cls_gen encode_table_gen extensions_gen enum_default_as_name_gen wiring_gen gen_enum gen_path gen_list gen_tuple gen_exts gen_wiring). Qed.
+Theorem routes_same_gen : forall E via a dest sfx s x,
+  str_in sfx four_suffixes = true -> config_run_gen E via a dest sfx s x = config_loop_gen E sfx s x.
+Proof. intros E. exact (routes_same str2bool_gen enum_miss_cls_gen encode_table_gen extensions_gen enum_default_as_name_gen wiring_gen E gen_enum gen_path gen_list gen_tuple gen_exts gen_wiring). Qed.
 
 (* Optional[Class] = None members *)
-Theorem optional_member_none_gen : forall s,
-  member_loads s = true -> load_cfg_gen (SOpt s) (Some (to_dict_gen (ILeaf VNone))) = Ok (ILeaf VNone).
+Theorem optional_member_none_gen : forall E s,
+  member_loads s = true -> enum_defaults_safe E s = true ->
+  load_cfg_gen E (SOpt s) (Some (to_dict_gen (ILeaf VNone))) = Ok (ILeaf VNone).
 Proof.
-  intros s H. unfold load_cfg_gen, to_dict_gen. cbn [to_dict encode_cfg load_cfg].
-  rewrite (member_loads_ok str2bool_gen enum_miss_cls_gen enum_default_as_name_gen wiring_gen gen_wiring s H). reflexivity.
+  intros E s H Hs. unfold load_cfg_gen, to_dict_gen. cbn [to_dict encode_cfg load_cfg].
+  rewrite (member_loads_ok str2bool_gen enum_miss_cls_gen enum_default_as_name_gen wiring_gen E gen_wiring s H Hs). reflexivity.
 Qed.
+
+(* members of a (str, Enum) class as definition defaults (Tag = EMPTY '' | A 'a' | B 'b'): argparse takes them for str defaults.
+   Optional[Tag] = Tag.A with None saved: the fallback default is sent through the by-name converter -> usage error;
+   a None member whose class has `t: Tag = Tag.EMPTY` (falsy, so not turned into its name): str(member) is looked up -> KeyError *)
+Definition TAG_ENV : enum_env := mkenv [["EMPTY"; "A"; "B"]] [(["EMPTY"; "A"; "B"], "EMPTY")].
+Theorem witness_str_enum_optional_default :
+  value_via_config_gen TAG_ENV (TOpt (TEnum ["EMPTY"; "A"; "B"])) (Some (VEnum "A")) (encode_cfg_gen VNone) = Err (Exit 2).
+Proof. vm_compute. reflexivity. Qed.
+Theorem witness_str_enum_falsy_default :
+  load_cfg_gen TAG_ENV (SOpt (SNode [("t", SLeaf (TEnum ["EMPTY"; "A"; "B"]) (Some (VEnum "EMPTY")))])) (Some (to_dict_gen (ILeaf VNone)))
+  = Err (Raise "KeyError").
+Proof. vm_compute. reflexivity. Qed.
+(* an IntEnum member is written by name and comes back as the member, falsy or not (Prio = ZERO 0 | LOW 1 | HIGH 3) *)
+Theorem witness_int_enum :
+  value_via_config_gen (mkenv [] [(["ZERO"; "LOW"; "HIGH"], "ZERO")]) (TEnum ["ZERO"; "LOW"; "HIGH"]) (Some (VEnum "ZERO")) (encode_cfg_gen (VEnum "HIGH"))
+  = Ok (VEnum "HIGH")
+  /\ load_cfg_gen (mkenv [] [(["ZERO"; "LOW"; "HIGH"], "ZERO")]) (SOpt (SNode [("p", SLeaf (TEnum ["ZERO"; "LOW"; "HIGH"]) (Some (VEnum "ZERO")))]))
+       (Some (to_dict_gen (ILeaf VNone))) = Ok (ILeaf VNone).
+Proof. vm_compute. split; reflexivity. Qed.
 
 (* regression witness (repaired by repo commit 41db46a; before it postprocess called tuple(None) and TypeError escaped):
    a member that is None whose class has a Tuple field without a default *)
 Theorem witness_absent_member_tuple :
-  load_cfg_gen (SOpt (SNode [("t", SLeaf (TTupFix [TInt; TInt]) None)])) (Some (to_dict_gen (ILeaf VNone))) = Ok (ILeaf VNone).
+  load_cfg_gen NOENV (SOpt (SNode [("t", SLeaf (TTupFix [TInt; TInt]) None)])) (Some (to_dict_gen (ILeaf VNone))) = Ok (ILeaf VNone).
 Proof. vm_compute. reflexivity. Qed.
 Theorem optional_member_some_gen : forall s xs,
-  load_cfg_gen (SOpt s) (Some (to_dict_gen (INode xs))) = load_cfg_gen s (Some (to_dict_gen (INode xs))).
+  load_cfg_gen NOENV (SOpt s) (Some (to_dict_gen (INode xs))) = load_cfg_gen NOENV s (Some (to_dict_gen (INode xs))).
 Proof. intros s xs. reflexivity. Qed.
